@@ -1,1 +1,21 @@
-fn main(){println!("hv-sim");}
+//! hv-sim: drivers that need the `elvis` crate (address generator, DHCP, routers, NDL).
+mod ipgen;
+mod util;
+
+use util::*;
+
+fn main() {
+    let argv: Vec<String> = std::env::args().skip(1).collect();
+    if argv.is_empty() {
+        eprintln!("usage: hv-sim <command> [--key value]...");
+        std::process::exit(2);
+    }
+    let args = Args::parse(&argv[1..]);
+    match argv[0].as_str() {
+        "ipgen-drive" => ipgen::drive(&args),
+        other => {
+            eprintln!("unknown command {other}");
+            std::process::exit(2);
+        }
+    }
+}
